@@ -90,3 +90,11 @@ Example C01_back_compile_example :
   [opLoadConst; 0; opLoadConst; 1; opLoadConst; 2; opBinaryOp; bMultiply; opBinaryOp; bAdd; opLoadConst; 3;
    opCompareOp; cLessThan; opCopy; 0; opPopJumpForwardIfFalse; 7; opNil; opUnaryNot; opBinaryOp; bAnd; opNop]%N.
 Proof. vm_compute. reflexivity. Qed.
+
+(* ... and on the same fragment the reference semantics that judges the implementation on every run (Sem.eval)
+   computes exactly the pure function [sev] - value or error class -, for every environment and state, which
+   it leaves untouched. *)
+Require Import RV.model.Sem RV.proofs.SemScalarProofs.
+Theorem C01_back_sem_scalar : forall x f e s, (ScalarFrag.height x <= f)%nat ->
+  Sem.eval f e s (ScalarFrag.embed x) = (lift (ScalarFrag.sev x), e, s).
+Proof. exact sem_scalar. Qed.
